@@ -58,6 +58,15 @@ CHECKS = {
  "C08": ("exploration", "round-trip monitor over generated Go types (reflect-built and declared named types to depth 3) x values x routes (global, field read/write, method parameter/return), with delta-minimised type paths as signatures",
          "Every enumerated (type, value, route) either converts to a script value with equal contents that converts back to an equal Go value, or is rejected with an error; a Go panic (escaping or VM-recovered) is never accepted; field writes read back equal from both sides; Go methods receive exactly the arguments passed. Types to depth 2 are exhaustive over the base-kind roster, depth 3 sampled (quick) / enumerated (thorough).",
          "nil and empty slices/maps are not told apart; inside interface positions only contents are compared. Converter caches are process-global, so types are spread over fresh worker processes.", "DESIGN.md §5 C08"),
+ "C06": ("exploration", "bounded-progress monitor: logical cancellation instants (k-th host tick / parked signal), tick counters sampled after return, errors.Is on the returned error; race detector on the goroutine-spawning sample",
+         "Liveness is restated as bounded progress: for 41 non-terminating or blocking program shapes (loop forms, recursion, callbacks inside builtins, blocked channel operations, sleep, thread.wait) x goroutine nesting to depth 3 x cancellation instants x {cancel, deadline}, Eval returns with an error satisfying errors.Is(err, ctx.Err()), at most a bounded number of further ticks happen, and the tick counter stops after return. Held on the shapes and instants explored.",
+         "An unbounded 'eventually' cannot be decided by a finite run; the watchdog (10 s) is the only wall-clock element and a hit is re-run alone and must repeat to count.", "DESIGN.md §5 C06"),
+ "C07": ("exploration", "differential history monitor: invocation histories (RunCode / Call / REPL-style Run; value, error, panic, overflow, cancelled; cancel events of earlier contexts made deterministic with the VerifHalt hook) on one VM compared with the same invocation on a fresh VM; absolute invariants (running=false, fp=0, sp restored); race detector on a sample",
+         "All histories of length <= 3 over the alphabet (exhaustive) and sampled histories up to length 6 give, for every invocation, the result and error it gives on a fresh VM, never (nil, nil) or a partial value.",
+         "Run and RunCode are not mixed on one VM (undefined by the statement). Hook: vm.VerifHalt/VerifSP/VerifFP/VerifRunning.", "DESIGN.md §5 C07"),
+ "C10": ("exploration", "history checker over recorded send/receive histories: conservation (exactly-once), per-sender order, close semantics, wait() results, spawn-argument capture; porcupine linearizability check of stamped histories against a bounded FIFO queue; race detector over every scenario",
+         "Producer/consumer topologies (1..4 senders and receivers, buffer 0..8, all send/receive/iteration styles, three spawn forms, GOMAXPROCS 1..16, injected yields) are run in plain and -race workers; unique message ids make the histories unambiguous; stamped histories of buffered channels are checked with porcupine. Held on the schedules that occurred.",
+         "Goroutines share only channels by construction, so race reports concern interpreter state. porcupine timeouts are inconclusive.", "DESIGN.md §5 C10"),
 }
 
 NOT_YET = {}
